@@ -272,7 +272,70 @@ fn start<S: ShortGroupSignatureScheme>(em: &mut Emitter) -> (IssuerPublic<S>, Ct
     (public, Ctx { issuer, handles: vec![], issued: BTreeSet::new(), revoked: BTreeSet::new(), trace: vec![] })
 }
 
+/// identifiers of unusual shape (empty, white space, non-ASCII, long, NUL): the identifier → element map must be
+/// a function (same element at issuance, refresh, revocation and on the holder's side), whatever the string
+fn special_identifiers<S: ShortGroupSignatureScheme>(em: &mut Emitter, suite: &str) {
+    let long = "x".repeat(300);
+    let ids: Vec<&str> = vec!["", " ", "a b", "é", long.as_str(), "\u{0}", "a", "A"];
+    let schema = basic_schema();
+    let (_public, mut issuer) = Issuer::<S>::new(&schema);
+    let pk = credx::knox::accumulator::vb20::PublicKey::from(&issuer.revocation_key);
+    let alpha = issuer.revocation_key.0;
+    let claims_of = |id: &str| -> Vec<ClaimData> { vec![RevocationClaim::from(id).into(), HashedClaim::from("N").into(), NumberClaim::from(30).into()] };
+    for id in &ids {
+        em.oracle_case(&format!("{} special-id {:?}", suite, &id[..id.len().min(8)]));
+        let shown = format!("{:?}", &id[..id.len().min(12)]);
+        // the map is a function
+        if Element::hash(id.as_bytes()).0 != Element::hash(id.as_bytes()).0 || RevocationClaim::from(*id).to_scalar() != Element::hash(id.as_bytes()).0 {
+            em.violation("identifier-element-not-a-function", format!("{}: identifier {} does not map to one element (Element::hash / RevocationClaim::to_scalar disagree or vary)", suite, shown), json!({"suite": suite, "id": id}));
+        }
+        let b = match call(|| issuer.sign_credential(&claims_of(id))) {
+            Out::Ok(b) => b,
+            o => {
+                em.count(&format!("special-id-issuance:{}", o.class()));
+                continue;
+            }
+        };
+        let y = Element::hash(id.as_bytes());
+        let value = issuer.revocation_registry.value;
+        if !b.credential.revocation_handle.verify(y, pk, value) {
+            em.violation("issued-handle-rejected", format!("{}: issued handle of identifier {} does not verify against the published value", suite, shown), json!({"suite": suite, "id": id}));
+        }
+        match call(|| issuer.update_revocation_handle(RevocationClaim::from(*id))) {
+            Out::Ok(w) => {
+                if !w.verify(y, pk, value) {
+                    em.violation("refreshed-handle-rejected", format!("{}: refreshed handle of active identifier {} does not verify", suite, shown), json!({"suite": suite, "id": id}));
+                }
+            }
+            _ => em.violation("refresh-refused-for-active", format!("{}: refresh refused for the active identifier {}", suite, shown), json!({"suite": suite, "id": id})),
+        }
+        // persist / restore, then revoke: the value is divided by exactly (hash(id) + α)
+        let txt = serde_json::to_string(&issuer).unwrap();
+        issuer = serde_json::from_str(&txt).unwrap();
+        let before = issuer.revocation_registry.value;
+        match call(|| issuer.revoke_credentials(&[RevocationClaim::from(*id)])) {
+            Out::Ok(()) => {
+                let want = before.0 * (y.0 + alpha).invert().unwrap();
+                if issuer.revocation_registry.value.0 != want {
+                    em.violation("revocation-divides-by-other-element", format!("{}: revoking identifier {} does not divide the value by (hash(id) + key)", suite, shown), json!({"suite": suite, "id": id}));
+                }
+                if b.credential.revocation_handle.verify(y, pk, issuer.revocation_registry.value) {
+                    em.violation("revoked-handle-verifies", format!("{}: the handle of revoked identifier {} still verifies", suite, shown), json!({"suite": suite, "id": id}));
+                }
+                if call(|| issuer.update_revocation_handle(RevocationClaim::from(*id))).is_ok() {
+                    em.violation("refresh-for-inactive", format!("{}: refresh succeeded for the revoked identifier {}", suite, shown), json!({"suite": suite, "id": id}));
+                }
+                if call(|| issuer.sign_credential(&claims_of(id))).is_ok() {
+                    em.violation("revoked-reissued", format!("{}: the revoked identifier {} was issued again", suite, shown), json!({"suite": suite, "id": id}));
+                }
+            }
+            _ => em.violation("revoke-refused-for-active", format!("{}: revoking the active identifier {} failed", suite, shown), json!({"suite": suite, "id": id})),
+        }
+    }
+}
+
 pub fn gen_c13_suite<S: ShortGroupSignatureScheme>(em: &mut Emitter, rng: &mut Rng, suite: &str) {
+    special_identifiers::<S>(em, suite);
     let ops = alphabet();
     // exhaustive prefix tree
     let depth = em.n(2, 3);
